@@ -230,6 +230,9 @@ def replay_histories(ck, hres, ffs, tier):
         raise c.MachineryError("history model exported %d histories, expected %d" % (len(hists), need))
     wd = c.workdir(PROP, "hist")
     inputs = [prepare_abstract_input(wd, k + 1, x["case"], ffs[x["case"]["ff"] - 1]) for k, x in enumerate(hin)]
+    for k, x in enumerate(hin):
+        if x["expected"]["err"]:
+            inputs[k]["declared_failure"] = x["expected"]["err"]      # the input whose declared result is a failure (thorough tier)
     specs = history_specs(wd, inputs, [x["h"] for x in hists], "h")
     results = c.pmap(_run_history, specs)
     fresh = {}
@@ -681,7 +684,7 @@ def run(tier, prop=PROP):
             raise c.MachineryError(r["machinery"])
     fresh = [result_digest(hres[i]["res"][0]) for i in range(len(pool))]
     for i, d in enumerate(fresh):
-        if d.startswith("ERR:"):      # every input of the pool is inside the domain of gen_params: the code must not raise on it
+        if d.startswith("ERR:") and not pool[i].get("declared_failure"):      # every other input of the pool is inside the domain of gen_params
             ck.violation({"kind": "I->S history input", "input": pool[i], "error": hres[i]["res"][0]},
                          what="gen_params raised in a fresh process on the in-domain input '%s': %s" % (pool[i]["label"], hres[i]["res"][0].get("msg")))
     traces = [[{"inp": i, "out": result_digest(r)} for i, r in zip(h, hres[len(pool) + k]["res"])] for k, h in enumerate(rh)]
